@@ -75,7 +75,7 @@ def num_event(res):
     if "crash" in res:
         return {"p": res.get("p"), "q": res.get("q"), "crash": res["crash"], "checks": []}
     base = res["base"]
-    bs = [10, base] if res["mode"] == "frac" and base != 10 else [base]
+    bs = [base]          # every numeral of a reply, fractions and the integers of `-> frac` included, is read in the reply's base
     checks = []
     seen = set()
 
